@@ -18,11 +18,40 @@ NOT_APPLICABLE = [
     {"property_id": "C20", "reason": "iptables rule text is a pure function of the capture configuration; " + PURE},
 ]
 # properties planned in DESIGN.md whose check is not built yet (removed from here as they land)
-for _p, _sec in [("C01", "4.1"), ("C03", "4.3"), ("C04", "4.4"), ("C05", "4.5"), ("C06", "4.6"), ("C11", "4.7"), 
-                 ("C15", "4.9"), ("C16", "4.10"), ("C17", "4.11"), ("C18", "4.12")]:
+for _p, _sec in [("C03", "4.3"), ("C04", "4.4"), ("C05", "4.5"), ("C06", "4.6"), ("C11", "4.7"), 
+                 ("C15", "4.9"), ("C16", "4.10"), ("C18", "4.12")]:
     NOT_APPLICABLE.append({"property_id": _p, "reason": "not claimed yet: simulation target (DESIGN.md section %s) whose check is still being built; not a not-applicable verdict" % _sec})
 
 PROPERTIES = {
+    "C17": {
+        "design_ref": "4.11",
+        "technique": "deterministic simulation: replica-divergence search - several real control-plane instances in one virtual-time bubble receive the same seeded object set in independently permuted insertion orders; identical clients; byte and order equality, plus repeated forced regeneration inside one instance",
+        "level_text": "seeded search over object sets (frequent creation-time ties, several owners of one host) x insertion permutations x clients; every resource and the resource order of every full response must be identical across instances and across forced regenerations (each of which re-samples Go's map iteration order); sampling, not proof",
+        "level_note": "trusted: testing/synctest, FakeDiscoveryServer assembly, client model; Go's per-range random map order is the sampled source of nondeterminism and is NOT controlled by the simulator, so a violation is probabilistic per run and its replay is retried (replay_attempts)",
+        "rule": "each run = one seeded object set (3-14 objects over up to 13 kinds, 3 possible creation times) + 1-2 clients; replica a is regenerated 3 times, 1-2 more replicas are built from permuted insertion orders; distinct = distinct schedule signature; non-trivial = at least one replica pair compared",
+        "real": WIS_REAL, "stub": WIS_STUB,
+        "assumptions": ["order of resources is compared for full (wildcard) responses; partial EDS/RDS responses are compared by name and bytes"],
+        "subchecks": [
+            {"check": "c17", "what": "replica divergence / regeneration determinism", "nontrivial": "a replica pair was compared",
+             "budget": {"quick": 60, "thorough": 900}, "seeds": {"quick": 1, "thorough": 3}, "chunk": 20, "replay_attempts": 12,
+             "must_probe": ["replica_pairs", "regenerations"]},
+        ],
+    },
+    "C01": {
+        "design_ref": "4.1",
+        "technique": "deterministic simulation of the whole control plane (virtual time, simulator-owned xDS streams, seeded config histories and debounce batching) with a fresh-replica oracle at checkpoints",
+        "level_text": "seeded search over config histories x client sets x debounce batchings on the real istiod assembly inside one virtual-time bubble; at checkpoints every client's held resources are compared byte-for-byte with what a cold instance built from the final state sends an identical client; sampling, not proof",
+        "level_note": "trusted: testing/synctest, the repository's own FakeDiscoveryServer assembly, the Envoy-like client models (a model error cancels: both sides of the comparison run the same model), equality is with a cold instance of the same code so a rule wrong in both is invisible",
+        "rule": "each run = 1-3 clients (sidecar/router, SotW or delta, with/without Sidecar scope, DNS capture), 2-15 (quick) create/update/delete mutations over up to 13 config kinds with random gaps relative to the debounce window and random partial delivery; distinct = distinct schedule signature; non-trivial = in prefix mode some mutation produced no response for some subscribed root type of some client (push skipped or narrowed)",
+        "real": WIS_REAL, "stub": WIS_STUB,
+        "assumptions": ["kinds outside the universe (Gateway API, Ingress, MCS, k8s objects) are not exercised by this check", "quiescence = no parked send, no queued request, push queue empty, committed == inbound, stable across an advance > debounceMax"],
+        "subchecks": [
+            {"check": "c01", "what": "history-independent convergence, fresh-replica oracle (prefix mode in half of the runs)",
+             "nontrivial": "a mutation was followed by a checkpoint in which some client got no response for some subscribed root type",
+             "budget": {"quick": 60, "thorough": 900}, "seeds": {"quick": 1, "thorough": 3}, "chunk": 20, "replay_attempts": 3,
+             "must_probe": ["push_skipped_or_narrowed", "checkpoints"]},
+        ],
+    },
     "C13": {
         "design_ref": "4.8",
         "technique": "deterministic simulation: seeded interleaving of registry calls on the real EndpointIndex through a yield hook inside UpdateServiceEndpoints; linearizability of the recorded history against a sequential model (porcupine)",
